@@ -34,6 +34,22 @@ class RegBench:
             if as_int != il:
                 chk.violation(f"require_user_verification={p2.require_uv} / require_user_presence={p2.require_up} give another outcome than the booleans ({label}): {as_int[:50]} instead of {il[:50]}",
                               f"policy-as-int reg {label.split('+')[0].split('/')[0]}", dict(rp, policy_as_int={"require_user_verification": p2.require_uv, "require_user_presence": p2.require_up}, outcome_as_int=as_int[:400]))
+        # policy switches that have their documented defaults (presence required, verification not required) may as well be left out - each one alone, or both
+        defaults = {"require_user_presence": True, "require_user_verification": False}
+        at_default = [k for k, dv in defaults.items() if (pol.require_up if k == "require_user_presence" else pol.require_uv) is dv]
+        if at_default:
+            import webauthn as _w
+            self._omit_n = getattr(self, "_omit_n", 0) + 1
+            drop = at_default if self._omit_n % 3 == 0 else [at_default[self._omit_n % len(at_default)]]
+            kw = pol.kwargs()
+            for k in drop:
+                kw.pop(k, None)
+            with impl.substituted(pol.substitute, pol.now):
+                omitted = impl.outcome(lambda: _w.verify_registration_response(credential=val, **kw), impl.pr_verified_reg)
+            chk.evals += 1
+            if omitted != il:
+                chk.violation(f"leaving {' and '.join(drop)} out (documented defaults) gives another outcome than passing them ({label}): {omitted[:50]} instead of {il[:50]}",
+                              f"policy-omitted reg {'+'.join(drop)} {label.split('+')[0].split('/')[0]}", dict(rp, omitted=drop, outcome_when_omitted=omitted[:300]))
         # the same ceremony with the attestation object in another encoding CBOR allows for the same value (member order, indefinite lengths, wider length fields):
         # accepted stays accepted, refused stays refused
         if scn is not None and "ao_style" not in scn.k and getattr(reg, "att_obj", None) is not None and reg.typ == "public-key":
